@@ -67,6 +67,11 @@ package config_parser
 //@   dyncalls noeffect
 //@   modifies *
 //@   ensures result != nil ==> fresh(result)
+// an annotation block "[k: v, ...]" (three children: '[' list ']') written after a declaration is parsed and kept
+//@   ghostfn annKids() int
+//@   at call GetChildren#2 assume-after len(result) == annKids()
+//@   at call GetChildren#3 assert annKids() >= 3
+//@   ensures result != nil && calls("GetChildren") >= 2 && annKids() >= 3 ==> calls("parseNonEmptyParamList") == 1
 
 //@ func (*Walker).parseFunctionPrototypeExpression
 //@   requires w != nil
